@@ -16,8 +16,9 @@ Definition C12_statement : Prop :=
   forall (f : func) (n m : nat) r1 r2,
     vm_run n f = Some r1 -> go_run m f = Some r2 -> r1 = r2.
 
-(* The full statement is false of the code as it is; independent witnesses
-   (each replayed on the real VM by the check, see KNOWN_FINDINGS). *)
+(* The full statement was false of the code: four independent witnesses, each
+   a recorded finding, now repaired (the trees are kept, with the positive
+   statements, and replayed on the real VM by the check as regressions). *)
 Definition w_native_defer_panic : func := mkfunc [IDeferNat (NPanic 1)] [].
 Definition w_stale_recovered : func :=
   mkfunc [IDeferFn [IPanic 5] [(0, 4%N)]; IDeferFn [IRecover false] []; IPanic 2] [(2, 9%N)].
@@ -26,14 +27,13 @@ Definition w_dropped_panic : func :=
           IDeferFn [IPanic 1] [(0, 11%N)]; IPanic 3] [(2, 13%N)].
 
 (* a panic that leaves a function called back by native code: Go unwinds through
-   the native frame and the caller can recover it; the VM makes Run panic with
-   the text of the chain (known finding callback-panic-is-fatal) *)
+   the native frame and the caller can recover it; the VM made Run panic with
+   the text of the chain (former finding callback-panic-is-fatal) *)
 Definition w_callback_panic : func :=
   mkfunc [IDeferFn [IRecover false] []; ICallback [IPanic 7] [(0, 3%N)]] [].
-
-Theorem C12_refuted : ~ C12_statement.
-Proof. exact frames_refine_spec_refuted. Qed.
-Print Assumptions C12_refuted.
+Definition w_callback_chain : func :=
+  mkfunc [IDeferFn [ICallback [ICallback [IDeferFn [IRecover false; IPanic 4] [(1, 8%N)]; IPanic 3] [(1, 9%N)]] []] [];
+          IPanic 1] [(1, 12%N)].
 
 (* repaired (fix 6756254): the panic of a deferred native function is an
    ordinary panic, when the function returns and while another panic unwinds
@@ -66,10 +66,14 @@ Theorem C12_dropped_panic_repaired :
   go_run 60 w_dropped_panic = Some (OPanic [(1, false, Some 11); (3, false, Some 13)]%N, [ERecover (Some 4%N)]).
 Proof. exact dropped_panic_repaired. Qed.
 
-Theorem C12_refuted_callback_panic :
-  vm_run 40 w_callback_panic = Some (OCbPanic [(7, false)]%N, []) /\
-  go_run 40 w_callback_panic = Some (ONil, [ERecover (Some 7%N)]).
-Proof. exact callback_panic_witness. Qed.
+(* repaired (fix 34a254c): the PanicError of a callback is raised as it is through
+   the native function; the calling VM links its own panics after it *)
+Theorem C12_callback_panic_repaired :
+  (vm_run 40 w_callback_panic = Some (ONil, [ERecover (Some 7%N)]) /\
+   go_run 40 w_callback_panic = Some (ONil, [ERecover (Some 7%N)])) /\
+  (vm_run 80 w_callback_chain = Some (OPanic [(4, false, Some 8); (3, true, Some 9); (1, false, Some 12)]%N, [ERecover (Some 3%N)]) /\
+   go_run 80 w_callback_chain = Some (OPanic [(4, false, Some 8); (3, true, Some 9); (1, false, Some 12)]%N, [ERecover (Some 3%N)])).
+Proof. exact (conj callback_panic_repaired callback_chain_repaired). Qed.
 
 (* What is proved, for every tree / every state of the machine.  The trees
    include callbacks: Stop, Fatal and panics inside a Scriggo function that a
@@ -97,9 +101,9 @@ Print Assumptions C12_fatal_propagates.
 (* (2b) the same through callbacks, on the code path of callable.Value: the
    error of a Stop or Fatal raised inside the VM of a callback reaches Run
    unchanged (no step of a suspended VM runs in between: the machine ends at
-   once, whatever the stack of suspended VMs), and a panic that is not
-   recovered inside the callback ends the run with OCbPanic whatever the
-   callers have deferred *)
+   once, whatever the stack of suspended VMs); a panic that is not recovered
+   inside the callback goes on in the calling VM, at its call instruction,
+   with the panics of the callback before those of the caller *)
 Theorem C12_callback_stop_fatal_pass_through :
   forall s f k,
     smode s = MExec -> sfn s = Some f -> fetch f (spc s) = Some (INat k) ->
@@ -107,10 +111,13 @@ Theorem C12_callback_stop_fatal_pass_through :
     (forall v, k = NFatal v -> exists tr, step s = Fin (ORunPanics v) (EFatal v :: tr) /\ tr = str s).
 Proof. exact callback_stop_fatal_pass_through. Qed.
 
-Theorem C12_callback_panic_is_fatal :
-  forall s p c, souter s <> [] -> schain s = p :: c ->
-    finish s = Fin (OCbPanic (cb_view (p :: c))) (str s).
-Proof. exact callback_panic_is_fatal. Qed.
+Theorem C12_callback_panic_propagates :
+  forall s p c sv rest fr frs,
+    souter s = sv :: rest -> schain s = p :: c -> vcalls sv = fr :: frs ->
+    finish s = Next (mkstate (MNext (length (vcalls sv ++ [mkframe (CFn (vfn sv)) 0 Panicked]))) None (vpc sv)
+                             (vcalls sv ++ [mkframe (CFn (vfn sv)) 0 Panicked])
+                             ((p :: c) ++ vchain sv) (str s) (sraised s) rest).
+Proof. exact callback_panic_propagates. Qed.
 
 Theorem C12_callback_returns_to_caller :
   forall s sv rest, souter s = sv :: rest -> schain s = [] ->
@@ -149,10 +156,9 @@ Proof. exact recover_search_nearest. Qed.
 Theorem C12_panic_position :
   forall s f ins v,
   smode s = MExec -> sfn s = Some f -> fetch f (spc s) = Some ins -> panics_with ins v ->
-  (exists s', step s = Next s' /\
-     schain s' = mkprec v false false (debug_line f (spc s)) (sraised s) :: schain s) \/
-  (exists tr, step s = Fin (OPanic ((v, false, debug_line f (spc s)) :: chain_view (schain s))) tr) \/
-  (exists tr, souter s <> [] /\ step s = Fin (OCbPanic ((v, false) :: cb_view (schain s))) tr).
+  (exists s' rest, step s = Next s' /\
+     schain s' = mkprec v false false (debug_line f (spc s)) (sraised s) :: schain s ++ rest) \/
+  (exists tr rest, step s = Fin (OPanic ((v, false, debug_line f (spc s)) :: chain_view (schain s ++ rest))) tr).
 Proof. exact panic_position. Qed.
 Print Assumptions C12_panic_position.
 
